@@ -98,6 +98,24 @@ namespace bloch::runtime {
     }
     // cos/sin of an infinite or NaN angle are NaN: the gate would turn every amplitude into NaN
     // (and the emitted OpenQASM would read 'rx(inf) q[0];')
+    // The angle of rx/ry/rz as a number, whatever numeric type the argument value has at run time
+    // (an int reached through a type parameter used to be read as the float payload, i.e. 0).
+    static double rotationAngle(const Value& v, int line, int column) {
+        switch (v.type) {
+            case Value::Type::Float:
+                return v.floatValue;
+            case Value::Type::Int:
+                return static_cast<double>(v.intValue);
+            case Value::Type::Long:
+                return static_cast<double>(v.longValue);
+            case Value::Type::Bit:
+                return static_cast<double>(v.bitValue);
+            default:
+                throw BlochError(ErrorCategory::Runtime, line, column,
+                                 "a rotation angle must be a number");
+        }
+    }
+
     static void requireFiniteAngle(double theta, int line, int column) {
         if (!std::isfinite(theta)) {
             throw BlochError(ErrorCategory::Runtime, line, column,
@@ -3334,16 +3352,19 @@ namespace bloch::runtime {
                         m_sim.z(args[0].qubit);
                     } else if (name == "rx") {
                         ensureQubitActive(args[0].qubit, callExpr->line, callExpr->column);
-                        requireFiniteAngle(args[1].floatValue, callExpr->line, callExpr->column);
-                        m_sim.rx(args[0].qubit, args[1].floatValue);
+                        double theta = rotationAngle(args[1], callExpr->line, callExpr->column);
+                        requireFiniteAngle(theta, callExpr->line, callExpr->column);
+                        m_sim.rx(args[0].qubit, theta);
                     } else if (name == "ry") {
                         ensureQubitActive(args[0].qubit, callExpr->line, callExpr->column);
-                        requireFiniteAngle(args[1].floatValue, callExpr->line, callExpr->column);
-                        m_sim.ry(args[0].qubit, args[1].floatValue);
+                        double theta = rotationAngle(args[1], callExpr->line, callExpr->column);
+                        requireFiniteAngle(theta, callExpr->line, callExpr->column);
+                        m_sim.ry(args[0].qubit, theta);
                     } else if (name == "rz") {
                         ensureQubitActive(args[0].qubit, callExpr->line, callExpr->column);
-                        requireFiniteAngle(args[1].floatValue, callExpr->line, callExpr->column);
-                        m_sim.rz(args[0].qubit, args[1].floatValue);
+                        double theta = rotationAngle(args[1], callExpr->line, callExpr->column);
+                        requireFiniteAngle(theta, callExpr->line, callExpr->column);
+                        m_sim.rz(args[0].qubit, theta);
                     } else if (name == "cx") {
                         ensureQubitActive(args[0].qubit, callExpr->line, callExpr->column);
                         ensureQubitActive(args[1].qubit, callExpr->line, callExpr->column);
